@@ -58,6 +58,8 @@ pub struct GenCfg {
     pub topics: Vec<String>,
     pub filters: Vec<String>,
     pub big_retention: bool,
+    /// logs of one or two segments of 1-2 KiB: every few publishes evict a segment
+    pub tiny_retention: bool,
 }
 
 impl Default for GenCfg {
@@ -105,6 +107,7 @@ impl Default for GenCfg {
             topics: TOPICS.iter().map(|s| s.to_string()).collect(),
             filters: FILTERS.iter().map(|s| s.to_string()).collect(),
             big_retention: false,
+            tiny_retention: false,
         }
     }
 }
@@ -118,7 +121,9 @@ fn qos(w: [u32; 3]) -> impl Strategy<Value = u8> {
 }
 
 pub fn cfg_strategy(g: &GenCfg, nclients: usize) -> BoxedStrategy<Cfg> {
-    let seg = if g.big_retention {
+    let seg = if g.tiny_retention {
+        prop_oneof![3 => (Just(1024usize), 1usize..=2), 1 => (Just(2048usize), 1usize..=2)].boxed()
+    } else if g.big_retention {
         prop_oneof![Just((65536usize, 4usize)), Just((4096, 6))].boxed()
     } else {
         prop_oneof![
